@@ -31,4 +31,10 @@ func (d *Dynamic) PrevItem() vxfw.Command
   ensures C19_sel: result != nil ==> (SelInView(d) && d.cursor == old(d.cursor) - 1)
   ensures C19_end: result == nil ==> d.cursor == old(d.cursor)
   ensures C19_first: old(d.cursor) == 0 ==> result == nil
+
+-- Draw: when it has been told to bring the selected item into view, the loop over the items does not stop for lack of
+-- room before the selected item itself has been laid out (only this stepping stone of Draw is under contract; the
+-- widgets it draws are the application's and everything they do is left arbitrary)
+func (d *Dynamic) Draw(ctx vxfw.DrawContext) (vxfw.Surface, error)
+  cut "if ah >= int(ctx.Max.Height)" C19_drawn: d.scroll.wantsCursor ==> i > d.cursor
 @*/
